@@ -168,7 +168,9 @@ def case(ctx, i):
             if run.abnormal(wk):
                 wl.abnormal_violation(r, wk, "abicompat --weak-mode [%s]" % what)
             elif wk0.rc == 0 and not (wk.rc is not None and wk.rc & 4):
-                r.violate("oracle:C29:weak-mode-mismatch-not-reported:" + e.kind,
+                vnames = {v.name for v in p.exported_variables()}
+                via = "through-a-variable" if (set(e.affected) & U & vnames) else "through-functions-only"
+                r.violate("oracle:C29:weak-mode-mismatch-not-reported:%s:%s" % (e.kind, via),
                           "abicompat --weak-mode exits %s although the application's %s differs from the library's for a used interface [%s]"
                           % (wk.rc, e.type_name, what), run=wk.brief())
     else:
